@@ -13,7 +13,7 @@ TRUST = ("Trusted: Coq 8.16.1 kernel (vm_compute where stated; no native_compute
 # id -> (claimed?, level text, technique, extra note / not-applicable reason)
 CHECKS = {
     "C01": (True,
-            "Theorems for ALL cue lists (no size bound): every representable list (any number of cues; times in int64 range; lines "
+            "Theorems for ALL cue lists (any number of cues; the line-length limit of the real reader - 65535 bytes, C17/C18 - is not part of the writer/reader model, so the round trip is claimed for lines below it): every representable list (times >= 0 in int64 range; no blank runs - the writer drops them -, no adjacent unstyled runs, no edge white space inside a run, no SRTPosition; lines "
             "of styled runs with bold/italic/underline/font colour, arbitrary UTF-8 text incl. '&', '<' and no-break space, free of line "
             "terminators and '-->') is written to a document that the reader model maps back to the same cues - times truncated to the "
             "millisecond, cues numbered 1..n, every line and run unchanged (C01_write_read); a written line parses back to its runs; "
@@ -27,7 +27,7 @@ CHECKS = {
             "golang.org/x/net/html's tokenizer is modelled on the fragment html_simple (tags b/i/u/font with a color attribute, text, "
             "comments; see Kit/Html.v); the representability predicates imply html_simple for every line the theorems talk about "
             "(C01_*_in_faithful_domain; colours without '&'/CR/NUL, no raw-text elements in raw lines - each exclusion shown necessary by "
-            "a computed counter-example, C01_needs_*), outside it the harness compares only the Ok/Err/Panic class; the reading of every "
+            "a computed counter-example, C01_needs_*), outside it the harness compares only whether the call panics (model class Panic vs a Go panic; the Ok/Err distinction is not compared there); the reading of every "
             "tolerated rendering is proved (C01_read_rendered, C01_read_rendered_raw); the writer's output is one of those renderings "
             "(C01_write_is_rendering), so the denotation of the reading theorem is a Coq-side decoder independent of the reader "
             "(C01_write_denotes); checked models with explicit panic sites agree with the models (C01_checked_*); bufio.Scanner is "
@@ -99,8 +99,8 @@ CHECKS = {
             "Rocq proof over a Gallina string-level model + extracted-model differential correspondence",
             "field-width facts (two digits for values < 100, k digits for values < 10^k) are finite sweeps closed by vm_compute; "
             "formatDurationSTL's float64 Hours()/Minutes()/Seconds() floors are transcribed in Flocq binary64 (Model/DurFloat.v, "
-            "Model/StlFloat.v) and PROVED equal to the integer model below 1024 h for every frame rate (C16_stl_float_path, "
-            "C16_stl_float_fields; the frame field itself is integer arithmetic in the code); the 4-byte cue-boundary form on arbitrary "
+            "Model/StlFloat.v) and PROVED equal to the integer model for every frame rate: below 24 h (C16_stl_float_path), below 256 h for the separate fields "
+            "(C16_stl_float_fields) and below 1024 h (C16_stl_float_path_1024h; the frame field itself is integer arithmetic in the code); the 4-byte cue-boundary form on arbitrary "
             "instants: floor frame, within 1 ns, second write identical, monotone (C16_stl_bytes); the float theorems print the "
             "standard-library Reals axioms."),
     "C15": (True,
@@ -123,14 +123,16 @@ CHECKS = {
             "every schedule, the exact boundary per line end (LF 65535, CR LF / CR 65534, last line 65535) is proved and matches a probe "
             "on the library, and the result depends on the schedule only for a last line that exactly fills the buffer. Tie: the scanner, "
             "readNBytes and the STL reader under harness-controlled schedules against the extracted models (exhaustive over "
-            "{a,CR,LF}^<=5 x every split); every reader of every format is run on every single split point / one-byte reads / random "
-            "chunkings / 4096-65536-aligned splits and compared with its one-shot result.",
+            "{a,CR,LF}^<=5 x every split); the readers of all six formats (teletext transport streams included, read with PID/page auto-detection through a seekable scheduled reader) are run on every single split point / one-byte reads / random "
+            "chunkings and, for the five text/binary formats, 4096-65536-aligned splits of a large document, and compared with the one-shot result.",
             "Rocq proof over scanner/block-reader/reader models + extracted-model correspondence + exhaustive split-point enumeration",
             "bufio.Scanner's buffer growth/compaction is a library contract: the models are the abstract scanner in which each read appends "
             "an arbitrary prefix of the unread bytes, and its capacity-limited refinement (io.ErrNoProgress after 100 empty reads not "
             "modelled); TTML hands the stream to xml.Decoder and teletext to "
-            "astits: their read loops are named contracts (the models start after them and have no schedule parameter), covered by the "
-            "schedule enumeration on the implementation."),
+            "astits: their read loops are named contracts (the models start after them and have no schedule parameter), covered only by the "
+            "schedule enumeration on the implementation - which found that astits detects the packet size from a single first Read (a stream "
+            "delivering fewer than 193 bytes first failed): repaired in the library (repo b00351a: every Read of the demuxer is filled), seed C17-teletext-short-first-read. "
+            "Non-seekable readers are a different kind of reader (astits cannot rewind after PID detection), not a different schedule: not compared with seekable ones."),
     "C18": (True,
             "Theorems: the SubRip, WebVTT and SSA/ASS reader models return an error whenever the scanner stopped on an error (a read "
             "fault at any offset under any schedule, or an over-long line), whatever was delivered before; the STL reader returns an "
@@ -141,8 +143,8 @@ CHECKS = {
             "C18_limit_success_means_complete, C18_writes_ok_complete); a writer modelled as its list of checked Write calls fails when the destination fails before the end of "
             "the document and hands over every byte otherwise: instantiated for the SubRip and WebVTT writers (one Write), the SSA/ASS "
             "writer (up to three), the STL writer (one per block), and the TTML writer for ANY cut of its bytes into checked Writes. "
-            "Tie: every reader is run with a read fault injected at every offset (sampled on big documents; TTML up to the end of the "
-            "root element), on lines of 2^16..2^20 bytes, every writer against a destination failing after k bytes for every k, the STL "
+            "Tie: every reader, the teletext reader on generated transport streams included, is run with a read fault injected at every offset (sampled on big documents; TTML up to the end of the "
+            "root element; the fault is sticky - a stream that fails once and then reports end-of-file is not exercised), on lines of 2^16..2^20 bytes, every writer against a destination failing after k bytes for every k, the STL "
             "reader/writer fault models against the implementation, and the file helpers on missing/uncreatable paths.",
             "Rocq proof over reader/writer error-propagation models + exhaustive fault-offset enumeration on the implementation",
             "xml.Decoder/Encoder buffering (TTML) and the transport-stream demultiplexer (teletext) are contracts: for them the level is "
@@ -264,7 +266,7 @@ CHECKS = {
             "with its overlay quirk, style rows, event rows with surplus commas folded into the last column, colours, booleans, numbers, "
             "times, *-prefixed style names, event text splitting at \\N / \\n and at {...} blocks with a hand-written matcher for the "
             "regular expression, script info; the writer's three Write calls with the styles map's iteration order as an explicit "
-            "argument). Machine-checked for ALL values (no size bound): field codecs (booleans - the written 1 and every non-zero integer "
+            "argument). Machine-checked for ALL values (any number of rows and cells; lines below the real reader's 65535-byte limit, which is modelled in C17/C18 only): field codecs (booleans - the written 1 and every non-zero integer "
             "are true -, decimal and &H colours, numbers with three decimals, times to the centisecond incl. H:MM:SS.cc); event text: a "
             "written line splits back into exactly its runs, every mixture of \\N and \\n denotes the same lines, commas are ordinary "
             "bytes; style and event rows decoded column by column for EVERY Format line (any order, subset, repetition, unknown names, "
@@ -284,7 +286,7 @@ CHECKS = {
             "reader, write->read->write byte equality.",
             "Rocq proof over a Gallina model of the SSA/ASS codec + extracted-model differential correspondence (values, bytes, rows through hooks) + independent Format-driven decoder",
             "floats are fixed-point thousandths in the model (|k| < 10^15); strconv's behaviour on them is a stated contract exercised by "
-            "the ssafloat suites, outside that domain only the Ok/Err/Panic class is compared; strings.ToLower, regexp and sort.Strings as "
+            "the ssafloat suites, outside that domain only panic vs no panic is compared (the Ok/Err distinction is not: e.g. a cell '12.3456' that Go's ParseFloat accepts is an error of the model); strings.ToLower, regexp and sort.Strings as "
             "stated in notes/C04.md; a malformed Style/Dialogue-like row (too few cells) aborts the read (judged a malformed row, not an "
             "unintelligible line; reasoning in notes/C04.md); every theorem of Properties/C04.v is closed under the global context."),
     "C05": (True,
@@ -370,7 +372,7 @@ CHECKS = {
     "C02": (True,
             "Gallina transcription of ReadFromWebVTT (header loop, block state machine, NOTE/STYLE/Region blocks, cue settings, "
             "X-TIMESTAMP-MAP), parseTextWebVTT (tag stack with classes/annotations, voices, inline timestamps, over a model of the "
-            "x/net/html tokenizer) and WriteToWebVTT. Theorems for ALL representable documents (no size bound): write then read returns "
+            "x/net/html tokenizer) and WriteToWebVTT. Theorems for ALL representable documents (any number of cues and definitions; lines below the real reader's 65535-byte limit, which is modelled in C17/C18 only): write then read returns "
             "the document (cues numbered 1..n, times to the millisecond, settings/regions with fallbacks resolved, STYLE, timestamp map, "
             "comments, voices, tag stacks with classes and annotations, inline timestamps); written lines parse back to their runs and lie "
             "inside the tokenizer model's faithful domain; regions are defined before use in what is written and in any accepted input; "
@@ -380,7 +382,7 @@ CHECKS = {
             "identifier present / absent / not a number, each timestamp as mm:ss.ttt or with an hour field of any width, any white space "
             "or none around the arrow, settings in any order with repeats after spaces or tabs, blank lines (empty or white space) "
             "anywhere the grammar allows - the reader returns exactly what the document denotes; every side condition is a single "
-            "boolean check and each is shown necessary by a computed counter-example replayed on the library (suite vtt.needs). "
+            "boolean check; six of them are shown necessary by computed counter-examples replayed on the library (suite vtt.needs), the others are stated with their reason in notes/C02.md. "
             "Tie: reader values, writer bytes and single-line parses compared with the extracted model on generated documents "
             "(regions, STYLE, timestamp map, comments, settings, tag stacks of depth 0..3, timestamps, voices x EOL/BOM/short time "
             "forms/ids/tabs), mutated documents and repository samples. Oracles: ground truth for the reader; an independent WebVTT "
@@ -393,7 +395,7 @@ CHECKS = {
             "independent of the reader); checked models with explicit panic sites agree with the models (C02_checked_*); x/net/html "
             "tokenizer and the two regular "
             "expressions are hand-written matchers compared with the library inside the faithful domain html_simple/vtt_tag_simple "
-            "(outside it only the Ok/Err/Panic class is compared)."),
+            "(outside it only panic vs no panic is compared)."),
 }
 
 PENDING = "check not built yet in this session (work in progress; see DESIGN.md section 7 for the plan)"
